@@ -37,7 +37,7 @@ ASSUMPTIONS = [
     "gc is run at fixed points; finalisers of abandoned generators run as simulator tasks before the next op",
 ]
 PROBES = ("transient_error", "closed_directly", "closed_via_iter", "closed_by_tool", "closed_by_gc", "asend_used", "athrow_on_closed_handle",
-          "underlying_used_after_close", "tool_abandoned", "reborrowed", "handle_ladder", "close_during_pull", "tool_kept")
+          "underlying_used_after_close", "tool_abandoned", "reborrowed", "handle_ladder", "ladder_send_or_throw_through_closed_rung", "close_during_pull", "tool_kept")
 
 TOOL_NAMES = ("zip", "map", "filter", "filterfalse", "enumerate", "accumulate", "batched", "chain", "compress",
               "cycle", "dropwhile", "takewhile", "islice", "pairwise", "zip_longest", "tee", "groupby")
@@ -118,7 +118,8 @@ def gen(ch):
             continue
         if kind == 13:
             depth = ch.between(2, 4)
-            ops.append((13, depth, tuple((ch.weighted([3, 2]), ch.draw(depth)) for _ in range(ch.between(1, 7)))))
+            # per step: 0 advance rung k | 1 close rung k | 2 / 3 send / throw through rung k (acted on once k itself was closed)
+            ops.append((13, depth, tuple((ch.weighted([6, 4, 1, 1]), ch.draw(depth)) for _ in range(ch.between(1, 7)))))
             continue
         if kind in (5, 9):
             gt = Gen(ch, cfg, "t%d" % n)
@@ -535,9 +536,27 @@ def execute(st, ctx):
                 for _ in range(depth - 1):
                     rungs.append(L.borrow(rungs[-1]))
                 is_open = [True] * depth
+                closed_self = [False] * depth
                 got_l, exp_l = [], []
                 for what, k in steps:
-                    if what == 0:
+                    if what in (2, 3):
+                        # a rung that was closed itself no longer reaches the underlying iterator, whatever became of the others
+                        meth = getattr(rungs[k], "asend" if what == 2 else "athrow", None)
+                        if not closed_self[k] or meth is None:
+                            continue
+                        out.probes["ladder_send_or_throw_through_closed_rung"] = 1
+                        n_before = src.n_pulls
+                        n_log = sum(1 for e in sim.log if e[0] in ("asend", "athrow"))
+                        try:
+                            await (meth(None) if what == 2 else meth(KeyError("thrown through a closed rung")))
+                        except BaseException as err:  # noqa
+                            if type(err).__name__ == "Cancel":
+                                raise
+                        got_l.append(("through_closed", k, src.n_pulls - n_before,
+                                      sum(1 for e in sim.log if e[0] in ("asend", "athrow")) - n_log))
+                        exp_l.append(("through_closed", k, 0, 0))
+                        del meth
+                    elif what == 0:
                         got_l.append(await do_next(rungs[k]))
                         # rung k delivers iff every rung from the bottom up to k is still open; the rungs above a
                         # closed one run off its end and are finished from then on
@@ -555,6 +574,7 @@ def execute(st, ctx):
                     else:
                         await rungs[k].aclose()
                         is_open[k] = False
+                        closed_self[k] = True
                         got_l.append(("closed", k))
                         exp_l.append(("closed", k))
                 for r in reversed(rungs):
